@@ -272,6 +272,13 @@ PENDING_REASON = "check not built yet in this round (design in DESIGN.md section
 
 # Extensions made after the seeding waves (appended to the level text / note of the check).
 ADDENDA = {
+    "C17": " Also tall-narrow sources (columns < rows), off-grid pixel sizes at two cell sizes, the global cell ratio "
+           "{0.25, 1.0, 2.0, ...}, canvases trimmed after their image was rendered again at another size, and pairs of "
+           "content() iterators advanced in lock step.",
+    "C04": " The history alphabet also contains a render that fails because the source file is missing, a repeated "
+           "rendered_size read across a cell-size and cell-aspect change on the same instance, a history-free twin "
+           "comparison of every fixed automatic size, and a cached ImageIterator running across a resize or ratio "
+           "change (frame size == current size); the frame menu includes mixed absolute/relative frames.",
     "C02": " The format(image, spec) entry point is exercised with every alpha-field form (`#`, thresholds, hex colours "
            "including digits-only ones, black and upper-case), and frames of mixed modes within one multi-page file are "
            "reached from every other page.",
@@ -302,7 +309,9 @@ ADDENDA = {
            "iterator priming are fault points too (OSError, KeyboardInterrupt); a constructor that raised is followed by "
            "a garbage collection.",
     "C11": " Dynamic sizes (FIT, FIT_TO_WIDTH) with terminal resizes between and inside cached loops are part of the "
-           "fault-free iteration searches (depth 7 / 8).",
+           "fault-free iteration searches (depth 7 / 8); for every draw(), a persistent standard-output failure from "
+           "every write/flush index on (BrokenPipeError; ValueError of a closed stream in thorough), after which the "
+           "current frame, the size setting and every opened file must be as after any other draw.",
     "C13": " Fault exceptions: KeyboardInterrupt, SystemExit, a custom BaseException subclass, OSError (+ termios.error, "
            "BrokenPipeError in thorough) at every point; draw() is exercised with a renderable whose finalizer hook "
            "_finalize_render_data_ is itself a fault point.",
@@ -313,15 +322,21 @@ ADDENDA = {
            "to raise once; get_cell_size() can be interrupted at representative tty calls; a process start (cache "
            "migration) is part of the cell alphabet; the probe and cell searches are repeated in a world where standard "
            "output is not the active terminal (shutil's size is a constant differing from every terminal size).",
-    "C18": " A fault dimension: the k-th write of a redraw raises EAGAIN once, for every k and every transition out of "
-           "the root scenes; whatever a failed redraw wrote must be bracketed, and the following redraws are judged by "
-           "the full ghost oracle.",
-    "C19": " A non-ASCII decimal digit pass (every string over the context alphabet plus an Arabic-Indic / fullwidth digit "
-           "up to length 5 / 6, and every menu sentence with one digit substituted) must be rejected; entry-point "
-           "orderings (UrwidImage first, cached ImageIterator across a size change) are compared with the explicit "
-           "composition.",
-    "C20": " Class trees include multiple inheritance with a non-style mixin (first, last, below the root) and a diamond; "
-           "the reference resolves along Python's MRO computed on a shadow hierarchy.",
+    "C18": " Identities kitty / kitty 0.25.0 / konsole / unrecognised terminal with forced kitty support / other; "
+           "transitions include a neighbour on the image's rows changing, the public clear_images() in all its forms, and "
+           "widgets of a subclass with format-spec z fields. A fault dimension: the k-th write of a redraw raises EAGAIN "
+           "once, for every k and every transition out of the fault roots, the application survives; whatever a failed "
+           "redraw wrote must be bracketed, and the following redraws are judged by the full ghost oracle.",
+    "C19": " Plus a non-ASCII-digit pass and control-whitespace variants (newline, tab, CR as prefix / infix / suffix) of "
+           "every sentence; every accepted sentence with a terminal-relative dimension is re-evaluated after a resize and "
+           "after resizing back (same process). Entry points: cached ImageIterators with +style specs across a size "
+           "change, UrwidImage-then-format-then-ImageIterator ordering, and rejected specifiers on live / closed / "
+           "file-missing images (documented error wins, source not opened).",
+    "C20": " Class trees include mixin-first and mixin-last multiple inheritance, a diamond, the library's real abstract "
+           "ancestry (BaseImage / GraphicsImage / TextImage) for forced support, and a subclass with a derived metaclass; "
+           "the reference resolves along Python's MRO computed on a shadow hierarchy. Values include negative jpeg "
+           "qualities and non-lowercase method spellings; every state is also checked through a cached ImageIterator with "
+           "an overriding spec across a size change.",
 }
 NOTE_ADDENDA = {
     "C01": " draw()-level frame re-positioning (_display_animated) is outside this statement and owned by C06 / C05; "
